@@ -80,3 +80,21 @@ Definition C15_source_skeleton := scml_skeleton_ok.
 (* text-level tie: the functions this property's hand-written model and harness were written from are unchanged
    (digests regenerated from /repo on every run; Proofs/PinsC15.v) *)
 Definition C15_source_pins := pins_C15_ok.
+
+(* _components_from_basis_weights as TRANSLATED on this run (gen/Src_scml.v: the selection w > 0 of the active bases, the low-rank
+   return expression np.sqrt(w.T) * basis, the matrix np.matmul(basis.T, w.T * basis) handed to components_from_metric otherwise):
+   the low-rank factor is the model's (so, by C15_partial, it factors M = sum_i w_i b_i b_i^T and has one row per active weight), and
+   in the full-rank case the matrix handed over has the quadratic form of that same sum, for every basis and non-negative weights *)
+Definition C15_builder_source_stmt : Prop :=
+  (forall (w : Rv) (B : Rm), length w = length B -> @scml_lowrank_components ROps B w = @lowrank_components ROps w B) /\
+  (forall d (w : Rv) (B : Rm) (x : Rv), Forall (wfvR d) B -> wfvR d x -> length w = length B -> Forall (fun a => 0 <= a) w ->
+     vsumsqR (mvmulR (@scml_lowrank_components ROps B w) x) = quadformR (wgramR d w B) x /\
+     quadformR (@scml_fullrank_metric ROps B w) x = quadformR (wgramR d w B) x).
+
+Theorem C15_builder_source : C15_builder_source_stmt.
+Proof.
+  split; [exact src_lowrank_eq|]. intros d w B x HB Hx HL Hw. split.
+  - rewrite (src_lowrank_eq w B HL). apply scml_lowrank_factor; assumption.
+  - rewrite (src_fullrank_form d w B x HB Hx HL Hw). symmetry. apply quadform_wgram; assumption.
+Qed.
+Print Assumptions C15_builder_source.
